@@ -35,7 +35,8 @@ for name in sorted(n for n in rows if os.path.isdir(f'/verif/seeded/{n}')):
     seed_lines.append(f"| {name} | {m['property']} | {m['needs_to_manifest']} | {det} |")
 n_seeds = len(seed_lines) - 2
 seed_lines.append("")
-seed_lines.append(f"{n_seeds - len(missed)} of {n_seeds} seeded changes are reported by at least one quick check" + (f"; missed: {', '.join(missed)}." if missed else "."))
+only_pl = [n for n in rows if os.path.isdir(f'/verif/seeded/{n}') and rows[n] and all(h[2] != 'quick' for h in rows[n])]
+seed_lines.append(f"{n_seeds - len(missed) - len(only_pl)} of {n_seeds} seeded changes are reported by at least one quick check" + (f", {len(only_pl)} more (Polars-only changes: {', '.join(sorted(only_pl))}) by the Polars tier that `./check C07 thorough` / `./check C09 thorough` run (also `VERIF_POLARS=1` with the quick tier)" if only_pl else "") + (f"; missed: {', '.join(missed)}." if missed else "."))
 
 rev_lines = ["| reverted commit(s) | what the fix repaired | quick checks that report the regression |", "|---|---|---|"]
 rmiss = []
@@ -48,7 +49,8 @@ for name in sorted(n for n in rows if n.startswith('revert-')):
     rev_lines.append(f"| {' + '.join(hashes)} | {subj} | {det} |")
 n_rev = len(rev_lines) - 2
 rev_lines.append("")
-rev_lines.append(f"{n_rev - len(rmiss)} of {n_rev} reverts are reported by at least one quick check" + (f"; not reported: {', '.join(rmiss)} (see the notes below the table)." if rmiss else "."))
+rev_pl = [n for n in rows if n.startswith('revert-') and rows[n] and all(h[2] != 'quick' for h in rows[n])]
+rev_lines.append(f"{n_rev - len(rmiss) - len(rev_pl)} of {n_rev} reverts are reported by at least one quick check" + (f", {len(rev_pl)} more (the Polars-only repairs {', '.join(sorted(x[len('revert-'):] for x in rev_pl))}) by the Polars tier" if rev_pl else "") + (f"; not reported: {', '.join(rmiss)} (see the notes below the table)." if rmiss else "."))
 
 p = '/verif/DESIGN.md'
 s = open(p).read()
